@@ -673,7 +673,7 @@ FIT_COMBOS = [
     (True, "int32", "F-order", ["int16", "float32"], "asis", "tuple", 2),
     (True, "uint8", "asis", ["int64"], "asis", "tuple", 1),
     (True, "uint64", "list", ["pylist"], "asis", "tuple", 2),
-    (True, "float64", "asis", ["int8"], "view-rows", "tuple", 2),   # one dtype: a cast would copy to a contiguous array
+    (True, "float64", "asis", ["int8", "int64"], "view-rows", "tuple", 2),
 ]
 
 
@@ -692,11 +692,11 @@ def fit_layout_probe(ctx):
         what = "%s raised for grids=(np.arange(6.)[::2], np.array([0.,1.])): %s" % (type(e).__name__, str(e).splitlines()[0][:120])
     if what is None:
         ctx.count("fit:mixed-layout-grids-ok")
-    elif "fit_mixed_layout_grids" in ctx.known:
-        ctx.spec_fail("fit_mixed_layout_grids", what, {"op": "fit_discrete_mc", "X": X, "grids": "(np.arange(6.)[::2], np.array([0.,1.]))"})
-    else:   # observed on the unchanged tree; reported, not alarmed until listed in known_findings.txt
-        ctx.count("observed:fit_mixed_layout_grids")
-        ctx.notes.append("fit_mixed_layout_grids: " + what)
+    else:   # regression of the fixed finding (cartesian_nearest_index must accept mixed array layouts)
+        ctx.spec_fail("fit_mixed_layout_grids", what,
+                      {"op": "fit_discrete_mc", "X": [["1/10", "9/10"], ["19/10", "1/10"], ["1/10", "9/10"]],
+                       "grids": [["0", "2", "4"], ["0", "1"]], "order": "C",
+                       "form": "grids=(np.arange(6.)[::2], np.array([0.,1.]))"})
 
 
 def fit_cases(ctx, cases):
@@ -744,10 +744,6 @@ def fit_cases(ctx, cases):
         if xdt.startswith("uint") and any(v < 0 for row in X for v in row):
             xdt = "int64"
         gdts = [r.choice(gdt_choices) for _ in grids]
-        if glayout != "asis" and (any(len(g) < 2 for g in grids) or "pylist" in gdts):
-            glayout = "asis"        # a 1-point view is contiguous: the layouts would be mixed (fit_mixed_layout_grids)
-        if glayout != "asis":
-            gdts = [gdts[0]] * len(gdts)    # the cast to a common dtype copies (contiguous): mixed layouts again
         if intmode and not xdt.startswith("float"):
             Xbase = np.array([[int(v) for v in row] for row in X], dtype=xdt)
         else:
@@ -759,7 +755,8 @@ def fit_cases(ctx, cases):
                 tgl.append([int(v) if intmode else float(v) for v in g])
             else:
                 ga = np.array([int(v) if (intmode and not gd.startswith("float")) else float(v) for v in g], dtype=gd)
-                tgl.append(as_form(ga, glayout, r))     # one layout for all grids (see fit_mixed_layout_grids)
+                # layouts and dtypes are mixed freely across the grids (regression guard for fit_mixed_layout_grids)
+                tgl.append(as_form(ga, r.choice([glayout, "asis"]) if glayout != "asis" else r.choice(["asis", "asis", "asis", "view-rows", "neg-stride"]), r))
         tg = tuple(tgl) if gcont == "tuple" else tgl
         form = "X:%s/%s grids:%s/%s/%s" % (xdt, xcont, "+".join(sorted(set(gdts))), glayout, gcont)
         ctx.count("fit-form:X=" + xdt)
